@@ -43,10 +43,12 @@ func (m *F81Model) Distance(seq1 []uint8, seq2 []uint8, weights []float64) (floa
 	} else {
 		dist = -1. * m.b1 * math.Log(1.-diff/m.b1)
 	}
-	if dist > 0 {
-		return dist, nil
+	// Negative values (and -0) are clamped to 0; an undefined (NaN)
+	// estimator of a saturated pair is returned as it is
+	if dist <= 0 {
+		return 0, nil
 	}
-	return 0, nil
+	return dist, nil
 }
 
 func (m *F81Model) InitModel(al align.Alignment, weights []float64, gamma bool, alpha float64) (err error) {
